@@ -484,10 +484,12 @@ class _AllOptions(Evaluatable[Options]):
         _ = self.evaluate(options)
 
     def keys(self, options: Options) -> Set[str]:
-        return set(options.keys())
+        return set(options.keys()) | _templated_keys(options, options)
 
     def explain(self, options: Optional[Options] = None) -> Set[str]:
-        return set() if options is None else set(options.keys())
+        if options is None:
+            return set()
+        return set(options.keys()) | _templated_keys(options, options, explain=True)
 
     def __repr__(self) -> str:
         return "AllOptions"
